@@ -3,7 +3,7 @@
 set -e
 cd "$(dirname "$0")/../lean"
 (echo "import QR.Gen.Tables"; for f in QR/Model/*.lean QR/Spec/*.lean QR/Proofs/*.lean QR/Props/*.lean; do echo "import $(echo ${f%.lean} | tr / .)"; done) > QR.lean
-lake build QR qrdrv 2>&1 | tail -1
+/venv/bin/python ../tools/gen_tables.py > /dev/null; /venv/bin/python ../tools/translate.py > /dev/null; lake build QR qrdrv 2>&1 | tail -1
 cd ..
 python3 tools/mkmanifest.py
 python3-vt -c "
